@@ -92,9 +92,9 @@ class PortMachine(Machine):
     def draw_config(self, st: Streams, idx: int) -> dict:
         w = st.w
         return dict(
-            steps=w.randint(2, 30),
+            steps=w.randint(2, 60 if self.tier == "thorough" else 30),
             names=w.random() < 0.4,
-            neq_wb=w.random() < 0.15,
+            neq_wb=w.random() < (0.3 if self.tier == "thorough" else 0.15),
             multi=w.random() < 0.6,
             dups=w.random() < 0.1,
             empty=w.random() < 0.3,
